@@ -350,8 +350,9 @@ struct Env {
     {
         switch (s.kind) {
         // a resumption continues the LATEST established session, which must have negotiated a resumable SM
-        // session (the library would attempt <resume/> whenever its canResume flag is set, a flag that can be stale
-        // after an intermediate session without SM; no server resumes a session older than the latest one)
+        // session (environment assumption `resumesContinueSmSession`).  Before repo commit c590ae4 the library's
+        // canResume flag could be stale after an intermediate session without SM; the harness keeps its own record
+        // so that the assumption does not depend on that flag
         case Sym::Conn: return !open && (s.sm != 3 || (client->smCanResume() && lastSessionResumable));
         case Sym::Drop: case Sym::Clean: return open;
         case Sym::Fail: return !open;
